@@ -108,11 +108,15 @@ def list_tree(path):
     return sorted(out)
 
 
-def workspaces(workdir):
+MODES = {"dev": ["dev"], "dev-j4": ["dev", "-j", "4"], "build": ["build"]}
+
+
+def workspaces(workdir, mode="dev"):
     """{package path: {'src'|'build'|'dist': dir}} for every existing workspace (real `bob query-path`)"""
     res = {}
+    rel = ["--release"] if mode == "build" else []
     for key in ("src", "build", "dist"):
-        rc, txt = bob(workdir, ["query-path", "-q", "-f", "{name}|{%s}" % key, "//*"])
+        rc, txt = bob(workdir, ["query-path", "-q"] + rel + ["-f", "{name}|{%s}" % key, "//*"])
         for line in txt.split("\n"):
             if "|" in line:
                 name, d = line.split("|", 1)
@@ -120,20 +124,20 @@ def workspaces(workdir):
     return res
 
 
-def results(workdir):
+def results(workdir, mode="dev"):
     """{package path: digest of its dist workspace}"""
-    ws = workspaces(workdir)
+    ws = workspaces(workdir, mode)
     return {p: tree_digest(os.path.join(workdir, d["dist"])) for p, d in ws.items() if "dist" in d}, ws
 
 
-def clean_results(desc, tag="clean"):
+def clean_results(desc, tag="clean", mode="dev"):
     p = core.scratch_dir(tag)
     try:
         proj.write_project(desc, p)
-        rc, txt = bob(p, ["dev"] + roots_of(desc))
+        rc, txt = bob(p, MODES[mode] + roots_of(desc))
         if rc != 0:
             return None, txt
-        r, ws = results(p)
+        r, ws = results(p, mode)
         return r, txt
     finally:
         shutil.rmtree(p, ignore_errors=True)
